@@ -139,3 +139,53 @@ func (s *Sim) Exec(b Block, txs [][]byte, process bool) (*StepResult, error) {
 	}
 	return res, nil
 }
+
+// TwinResult holds both executions of ExecTwin.
+type TwinResult struct {
+	Block       Block
+	Without     *abci.ResponseFinalizeBlock
+	With        *abci.ResponseFinalizeBlock
+	DumpWithout StoreDump
+	DumpWith    StoreDump
+}
+
+// ExecTwin executes block b twice on the same instance without committing in
+// between: first with txsWithout, then (ProcessProposal resets the finalize
+// state above the initial height) with txsWith, which is the one committed.
+// The module-store dumps of both executions let a property compare "block
+// with transaction X" against "the same block without X".
+func (s *Sim) ExecTwin(b Block, txsWithout, txsWith [][]byte) (*TwinResult, error) {
+	if b.Height <= s.Chain.Initial {
+		return nil, fmt.Errorf("twin execution needs a height above the initial one")
+	}
+	res := &TwinResult{Block: b}
+	r1, err := s.Node.Finalize(b.FinalizeReq(txsWithout, s.Chain.NextVals.Hash()))
+	if err != nil {
+		return res, fmt.Errorf("FinalizeBlock(without) height %d: %w", b.Height, err)
+	}
+	res.Without = r1
+	res.DumpWithout = s.Node.DumpStores(s.Node.FinalizeCtx())
+	// FinalizeBlock flushes the block's writes into the root store's working
+	// set (baseapp.workingHash); reloading the committed version discards it,
+	// and ProcessProposal then installs a fresh finalize state.
+	if err := s.Node.DiscardUncommitted(); err != nil {
+		return res, fmt.Errorf("discard uncommitted: %w", err)
+	}
+	if _, err := s.Node.Process(b.ProcessReq(txsWithout)); err != nil {
+		return res, fmt.Errorf("ProcessProposal (reset): %w", err)
+	}
+	r2, err := s.Node.Finalize(b.FinalizeReq(txsWith, s.Chain.NextVals.Hash()))
+	if err != nil {
+		return res, fmt.Errorf("FinalizeBlock(with) height %d: %w", b.Height, err)
+	}
+	res.With = r2
+	res.DumpWith = s.Node.DumpStores(s.Node.FinalizeCtx())
+	s.Node.Eng.TakeLog()
+	if err := s.Node.Commit(); err != nil {
+		return res, fmt.Errorf("Commit: %w", err)
+	}
+	if err := s.Chain.Decide(b, r2.ValidatorUpdates); err != nil {
+		return res, fmt.Errorf("consensus engine rejects validator updates at height %d: %w", b.Height, err)
+	}
+	return res, nil
+}
